@@ -36,7 +36,7 @@ CHECKS = {
          "DESIGN.md §3 C07"),
  "C15": ("exploration",
          "adversarial-naming runtime monitor: names of the generated kernel (arguments, temporaries, inames, substitution rules, bound arguments) checked against user names fed back from a first code generation pass of the same program; execution with pairwise-distinct inputs exposes aliasing",
-         "For each program a first codegen pass collects every name the generator invents; user input names, output keys and Named/PrefixNamed tags are then drawn from those names, one-edit neighbours and near-reserved names (7 scenarios incl. reserved-pattern names, output key = input name, naming tags on wrapped data, two distinct same-named inputs). The kernel's name spaces must be disjoint, placeholders and outputs must appear under exactly their names, generated names must stay in _pt_ or derive from a naming tag, NameClashError must be raised for distinct same-named inputs, bound data must be the wrapped objects, and values must equal the default-named baseline/NumPy.",
+         "For each program a first codegen pass collects every name the generator invents; user input names, output keys and Named/PrefixNamed tags are then drawn from those names, one-edit neighbours and near-reserved names (7 scenarios incl. reserved-pattern names, output key = input name, naming tags on wrapped data, two distinct same-named inputs). The kernel's name spaces must be disjoint, placeholders and outputs must appear under exactly their names, generated names must stay in _pt_ or derive from a naming tag, NameClashError must be raised for distinct same-named inputs, bound data must be the wrapped objects, and values must equal the default-named baseline/NumPy. Size parameters get the same feedback treatment on a symbolic program (every generated name, PrefixNamed/Named tags used as the size parameter's name).",
          "As C01 for execution. For user names that collide with each other or lie in reserved regions either an error or correct values is accepted.",
          "DESIGN.md §3 C15"),
  "C11": ("exploration",
@@ -66,7 +66,7 @@ CHECKS = {
          "DESIGN.md §3 C18"),
  "C13": ("exploration",
          "mapper event trace + reflective oracle: every map_* method of every Mapper class is wrapped in place at harness start and logs (mapper, node, extra-args) events; per application the event log is checked for exactly-once per distinct node, the visited set is compared with a dataclass-reflection walk that shares no code with the mappers, and results are checked for identity, node-count and sharing preservation; duplicate twins test collision reporting",
-         "About 25 public mapper-based functions/classes are applied to every graph of a node-kind-complete, hash-consed corpus (diamonds, ladders up to depth 60 with exponential path count, one node used through operand/shape/index/CSR/send/binding edges, traced calls, distributed nodes, symbolic shapes). Monitors: (1) each cached mapper's per-node method fires once per (mapper instance, node[, extra args]); a logical event budget turns exponential re-traversal into a violation instead of a hang; (2) every node the reflective walk finds is visited; (3) identity transforms return their argument, no transform returns more distinct nodes or structurally equal distinct nodes; (4) a graph with one cloned twin must raise the cache-collision error in CopyMapper and deduplicate must merge it.",
+         "About 25 public mapper-based functions/classes are applied to every graph of a node-kind-complete, hash-consed corpus (diamonds, ladders up to depth 60 with exponential path count, one node used through operand/shape/index/CSR/send/binding edges, traced calls, distributed nodes, symbolic shapes). Monitors: (1) each cached mapper's per-node method fires once per (mapper instance, node[, extra args]); a logical event budget turns exponential re-traversal into a violation instead of a hang; (2) every node the reflective walk finds is visited; (3) identity transforms return their argument, no transform returns more distinct nodes or structurally equal distinct nodes; (4) a graph with one cloned twin must raise the cache-collision error in CopyMapper and deduplicate must merge it; (5) single-change oracle: map_and_copy that tags ONE node -- afterwards the old node may not be reachable through any kind of edge and the node count is unchanged. Ladders reconverge through operand, index, stack/concatenate, einsum, where, roll, call-binding and CSR edges.",
          "Documented conventions are encoded, not judged: no mapper descends into NormalizedSlice bounds, dead-code elimination does not enter zeros_like operands, function bodies are entered by clone_for_callee mappers only, context mappers (einsum no-broadcast rewriter) legitimately revisit per context. Mappers not in the application table are not observed.",
          "DESIGN.md §3 C13"),
  "C20": ("exploration",
@@ -86,7 +86,7 @@ CHECKS = {
          "DESIGN.md §3 C06"),
  "C12": ("exploration",
          "differential runtime oracle: trace_call of a generated function under random call conventions vs the direct application of the same Python function (declared shape/dtype, reference evaluation), inlining monitor (no Call node left, values, structural inverse), sampled compiled execution; directed same-typed-parameter cases",
-         "Programs of C01's space become the body of a Python function over their placeholder inputs (wrapped data stays inside the body). Each is called directly and through trace_call with positional / keyword / mixed arguments, one of the three return conventions, nesting depth 1-3, repeated calls (same definition re-called, or re-traced) with other arguments, argument expressions that share nodes, and caller placeholders named exactly like the parameter placeholders trace_call invents. Monitors: results have the direct application's shape/dtype; the call graph evaluates bitwise like the direct application; after tag_all_calls_to_be_inlined + inline_calls no Call node is left (reflective walk and get_num_call_sites), output names and values are unchanged and the inlined graph is structurally the direct application; one in 6-12 is compiled. 162 directed cases with three same-typed parameters in a non-commutative body cover every convention x depth x naming.",
+         "Programs of C01's space become the body of a Python function over their placeholder inputs (wrapped data stays inside the body). Each is called directly and through trace_call with positional / keyword / mixed arguments, one of the three return conventions, nesting depth 1-3, repeated calls (same definition re-called, or re-traced) with other arguments, argument expressions that share nodes or are themselves call results, and caller placeholders named exactly like the parameter placeholders trace_call invents. Monitors: results have the direct application's shape/dtype; the call graph evaluates bitwise like the direct application; after tag_all_calls_to_be_inlined + inline_calls no Call node is left (reflective walk and get_num_call_sites), output names and values are unchanged and the inlined graph is structurally the direct application; one in 6-12 is compiled. 162 directed cases with three same-typed parameters in a non-commutative body cover every convention x depth x naming.",
          "Functions closing over caller placeholders are outside trace_call's contract: every placeholder input is a parameter. vf.oracle.refeval's Call rule (fresh environment of evaluated bindings) is the meaning of a call.",
          "DESIGN.md §3 C12"),
  "C08": ("exploration",
@@ -101,8 +101,8 @@ CHECKS = {
          "DESIGN.md §3 C09"),
  "C10": ("fault_enumeration",
          "fault enumeration with an independent well-formedness oracle: every single fault of the quantifier at every communication operation of every generated valid program (plus cancelling and random pairs) is run through the real find/verify on the simulated MPI; expected outcome decided from the harness's own global description; undiagnosed ill-formed programs are executed under adversarial schedules",
-         "Faults: drop / duplicate / retag / redirect (to every other rank, incl. self) one send or one receive, and a dependency closing a cross-rank cycle, at every live communication operation; pairs: the same retag at both ends (cancels: must be accepted), random second faults. Ill-formed (from the description: unmatched, duplicated, self, cyclic) => at least one rank must raise a diagnostic (DistributedPartitionVerificationError family, CycleError, PartitionInducedCycleError, the self-send/receive NotImplementedError); any other exception type, or no exception (then the partition is executed: deadlock / livelock / crash / lost message / silent success reported) is a violation. Well-formed => no rank may raise and execution must reproduce the global reference.",
-         "Ranks blocked in a collective after another rank raised are treated as aborted (MPI_Abort). Structurally equal duplicate receives are one node by pytato's value semantics, so injected duplicates are made distinguishable by a tag. All diagnostics observed come from find_distributed_partition's debug checks (python -O is not exercised).",
+         "Faults: drop / duplicate / retag / redirect (to every other rank, incl. self) one send or one receive, and a dependency closing a cross-rank cycle, at every live communication operation; pairs: the same retag at both ends (cancels: must be accepted), random second faults. Ill-formed (from the description: unmatched, duplicated, self, cyclic) => at least one rank must raise a diagnostic (DistributedPartitionVerificationError family, CycleError, PartitionInducedCycleError, the self-send/receive NotImplementedError); any other exception type, or no exception (then the partition is executed: deadlock / livelock / crash / lost message / silent success reported) is a violation. Well-formed => no rank may raise and execution must reproduce the global reference. A sample of the faulted programs is judged again in an interpreter started with python -O (asserts and __debug__ blocks gone).",
+         "Ranks blocked in a collective after another rank raised are treated as aborted (MPI_Abort). Structurally equal duplicate receives are one node by pytato's value semantics, so injected duplicates are made distinguishable by a tag. Under python -O the same oracle is applied to a sample (60 quick / 400 thorough faulted programs per shard).",
          "DESIGN.md §3 C10"),
  "C17": ("exploration",
          "cross-process differential monitor: the same program texts are handed to 3-6 fresh interpreters with different PYTHONHASHSEED and allocation histories; each emits the canonical kernel description, the C source, the numpy-like Python source and argument lists, per-rank partition summaries and the tag numbering (simulated MPI), each twice; the parent compares byte for byte",
